@@ -1,19 +1,19 @@
 #!/bin/sh
 # usage: confirm_seed.sh <ID> <mK>  -- confirm a seeded change: demo passes without it, fails with it, pinned suite passes with it.
-ID=$1; M=$2; SRC=/tmp/seed/$ID/out/$M
-WT=/tmp/confirm/wt_${ID}_$M; RES=/tmp/confirm/${ID}_$M.result
+ID=$1; M=$2; BASE=${SEEDBASE:-/tmp/seed}; TAG=${SEEDTAG:-}; SRC=$BASE/$ID/out/$M
+WT=/tmp/confirm/wt_${ID}_$TAG$M; RES=/tmp/confirm/${ID}_$TAG$M.result
 rm -rf $WT; git -C /repo worktree add --detach $WT HEAD >/dev/null 2>&1 || { echo "worktree failed" > $RES; exit 1; }
 cd $WT
-run_demo() { if grep -q "^def test_\|import pytest" $SRC/demo.py && ! grep -q "__main__" $SRC/demo.py; then JOBLIB_SRC=$WT JOBLIB_WT=$WT JOBLIB_TREE=$WT PYTHONPATH=$WT timeout 300 /venv/bin/python -m pytest -q -p no:cacheprovider $SRC/demo.py >/tmp/confirm/${ID}_$M.demo_$1.log 2>&1; else JOBLIB_SRC=$WT JOBLIB_WT=$WT JOBLIB_TREE=$WT PYTHONPATH=$WT timeout 300 /venv/bin/python $SRC/demo.py >/tmp/confirm/${ID}_$M.demo_$1.log 2>&1; fi; echo $?; }
+run_demo() { if grep -q "^def test_\|import pytest" $SRC/demo.py && ! grep -q "__main__" $SRC/demo.py; then JOBLIB_SRC=$WT JOBLIB_WT=$WT JOBLIB_TREE=$WT PYTHONPATH=$WT timeout 300 /venv/bin/python -m pytest -q -p no:cacheprovider $SRC/demo.py >/tmp/confirm/${ID}_$TAG$M.demo_$1.log 2>&1; else JOBLIB_SRC=$WT JOBLIB_WT=$WT JOBLIB_TREE=$WT PYTHONPATH=$WT timeout 300 /venv/bin/python $SRC/demo.py >/tmp/confirm/${ID}_$TAG$M.demo_$1.log 2>&1; fi; echo $?; }
 A=$(run_demo clean)
-git apply $SRC/patch.diff 2>/tmp/confirm/${ID}_$M.apply.log || { echo "apply failed" > $RES; git -C /repo worktree remove --force $WT; exit 1; }
+git apply $SRC/patch.diff 2>/tmp/confirm/${ID}_$TAG$M.apply.log || { echo "apply failed" > $RES; git -C /repo worktree remove --force $WT; exit 1; }
 B=$(run_demo bug)
-timeout 1800 /venv/bin/python -m pytest -q -p no:cacheprovider --timeout=900 --continue-on-collection-errors --junitxml=/tmp/confirm/${ID}_$M.junit.xml > /tmp/confirm/${ID}_$M.suite.log 2>&1
+timeout 1800 /venv/bin/python -m pytest -q -p no:cacheprovider --timeout=900 --continue-on-collection-errors --junitxml=/tmp/confirm/${ID}_$TAG$M.junit.xml > /tmp/confirm/${ID}_$TAG$M.suite.log 2>&1
 S=$?
 SUM=$(/venv/bin/python - <<PY
 import xml.etree.ElementTree as ET
 try:
-    r=ET.parse('/tmp/confirm/${ID}_$M.junit.xml').getroot(); ts=r if r.tag=='testsuite' else r[0]
+    r=ET.parse('/tmp/confirm/${ID}_$TAG$M.junit.xml').getroot(); ts=r if r.tag=='testsuite' else r[0]
     print({k: ts.get(k) for k in ('tests','failures','errors','skipped')})
 except Exception as e: print('no junit', e)
 PY
